@@ -14,7 +14,7 @@ import (
 
 type Profile struct {
 	Name                                                                  string
-	WAuthorize, WRedeem, WRefresh, WRevoke, WIntrospect, WAdvance, WSetClient int
+	WAuthorize, WRedeem, WRefresh, WRevoke, WIntrospect, WAdvance, WSetClient, WPassword, WClientCreds, WIntrospectEP int
 	PKCE                                                                  int // percent of authorizations carrying PKCE parameters
 	Bad                                                                   int // percent of adversarial variants (wrong client, tamper, ...)
 	ShortLives                                                            int // percent of histories with second-scale lifetimes
@@ -102,7 +102,10 @@ func newGen(r *RNG, p *Profile) *gen {
 	n := 2 + r.Intn(3)
 	for i := 0; i < n; i++ {
 		cl := HClient{Public: r.Chance(30)}
-		cl.Grants = []string{"authorization_code", "refresh_token"}
+		cl.Grants = []string{"authorization_code", "refresh_token", "password", "client_credentials"}
+		if r.Chance(15) {
+			cl.Grants = []string{"authorization_code", "refresh_token"}
+		}
 		if r.Chance(12) {
 			cl.Grants = []string{"authorization_code"}
 		}
@@ -159,7 +162,7 @@ func (g *gen) auth(owner int) int {
 
 func (g *gen) next() HOp {
 	p := g.p
-	total := p.WAuthorize + p.WRedeem + p.WRefresh + p.WRevoke + p.WIntrospect + p.WAdvance + p.WSetClient
+	total := p.WAuthorize + p.WRedeem + p.WRefresh + p.WRevoke + p.WIntrospect + p.WAdvance + p.WSetClient + p.WPassword + p.WClientCreds + p.WIntrospectEP
 	x := g.r.Intn(total)
 	pick := func(w int) bool {
 		if x < w {
@@ -330,6 +333,58 @@ func (g *gen) next() HOp {
 			}
 		}
 		return op
+	case pick(p.WPassword), pick(p.WClientCreds):
+		op := HOp{Kind: "password", CredsOK: !r.Chance(p.Bad)}
+		if r.Chance(35) {
+			op.Kind = "clientcreds"
+		}
+		op.Auth = g.auth(r.Intn(len(g.h.Clients)))
+		op.Scopes = g.subset(scopePool, 40)
+		if r.Chance(6) {
+			op.Scopes = append(op.Scopes, "admin")
+		}
+		op.Granted = append([]string{}, op.Scopes...)
+		if r.Chance(25) && len(op.Granted) > 0 {
+			op.Granted = op.Granted[:len(op.Granted)-1]
+		}
+		if r.Chance(30) {
+			op.Aud = g.subset(audPool, 40)
+		}
+		op.GAud = append([]string{}, op.Aud...)
+		return op
+	case pick(p.WIntrospectEP):
+		kind := Pick(r, []string{"access", "refresh"})
+		i := g.pickTok(kind, nil)
+		op := HOp{Kind: "introspect_ep", Tok: HTok{Ref: i, Tamper: r.Chance(10)}, Hint: Pick(r, []string{"access_token", "refresh_token", "other", ""})}
+		if i >= 0 && len(g.toks[i].scopes) > 0 && r.Chance(40) {
+			op.Scopes = g.subset(g.toks[i].scopes, 50)
+		}
+		switch r.Intn(10) {
+		case 0, 1, 2, 3:
+			// a confidential client's Basic credentials
+			op.Auth = -1
+			for tries := 0; tries < 6; tries++ {
+				c := r.Intn(len(g.h.Clients))
+				if !g.h.Clients[c].Public {
+					op.Auth = c
+					break
+				}
+			}
+		case 4:
+			op.Auth = -1
+		default:
+			bk := Pick(r, []string{"access", "access", "access", "refresh", "code"})
+			j := g.pickTok(bk, nil)
+			if r.Chance(15) {
+				j = i // the same token as bearer and as subject of the request
+			}
+			b := HTok{Ref: j, Tamper: r.Chance(8)}
+			if j == i {
+				b.Tamper = op.Tok.Tamper
+			}
+			op.Bearer = &b
+		}
+		return op
 	case pick(p.WAdvance):
 		op := HOp{Kind: "advance"}
 		c := &g.h.Cfg
@@ -405,6 +460,12 @@ func genHistory(t *testing.T, r *RNG, p *Profile) (*HHistory, []HObs) {
 			case "authorize":
 				if len(o.Minted) == 1 {
 					g.toks = append(g.toks, gTok{kind: "code", client: op.Client, family: len(g.toks), redirect: op.Redirect, verifier: verifier, method: op.Method, issuedAt: g.now, scopes: op.Scopes})
+				}
+			case "password", "clientcreds":
+				if o.Err == "" {
+					for _, m := range o.Minted {
+						g.toks = append(g.toks, gTok{kind: m, client: op.Auth, family: len(g.toks), issuedAt: g.now, scopes: op.Scopes})
+					}
 				}
 			case "redeem", "refresh":
 				if o.Err == "" && op.Tok.Ref >= 0 {
